@@ -212,6 +212,8 @@ def check(ctx):
     for cfgname in ctx.configs(quick=('base',), thorough=('base', 'wire', 'nostd')):
         f = ctx.facts(cfgname)
         rep.cur_config = cfgname
+        from . import common as _cm
+        _cm.check_helpers(ctx, f, rep, 'C19-R0', {'choose_members', 'Members::is_active'})
         common.check_derives(f, rep, 'C19-R0')
         r1_destinations(ctx, f, rep)
         r2_pickers(ctx, f, rep)
